@@ -177,6 +177,27 @@ func runC02(c *Ctx) {
 		if e1 == nil && mopt != nil && len(mopt) == 48 && !contains(listedForGo(snp, vmsas), mopt) {
 			c.Find("c02/verify.SNP/accept-unlisted", "verify.SNP accepted a 48-byte measurement not listed for the named configuration", op)
 		}
+		// the policy `sev policy` derives for a NAMED count pins exactly the measurement listed for it, whatever the
+		// other options are (direct oracle; the derivation itself is compared with the model under C17)
+		if snp != nil && vmsas != 0 {
+			gb2, _ := proto.Marshal(golden)
+			popts := &gcetcbendorsement.SevPolicyOptions{LaunchVmsas: vmsas, AllowUnspecifiedVmsas: r.Bool(), Overwrite: r.Bool()}
+			var pp *cpb.Policy
+			var perr error
+			ppan, _, _ := Guard(func() {
+				pp, perr = gcetcbendorsement.SevPolicy(ctx, &epb.VMLaunchEndorsement{SerializedUefiGolden: gb2}, popts)
+			})
+			want, listed := snp.GetMeasurements()[vmsas]
+			pop := fmt.Sprintf("sevpolicy g=%s vmsas=%d allow=%s ow=%s", sevLine(snp), vmsas, b2s(popts.AllowUnspecifiedVmsas), b2s(popts.Overwrite))
+			c.Count("sevpolicy-named/listed=" + b2s(listed))
+			if !ppan && perr == nil {
+				if !listed {
+					c.Find("c02/SevPolicy/named-count-unlisted-accepted", "SevPolicy derived a policy for a launch-VMSA count the endorsement does not list", pop)
+				} else if hx(pp.GetMeasurement()) != hx(want) {
+					c.Find("c02/SevPolicy/named-count-not-pinned", fmt.Sprintf("the policy derived for %d launch VMSAs carries measurement %s, the endorsement lists %s for that count", vmsas, hx(pp.GetMeasurement()), hx(want)), pop)
+				}
+			}
+		}
 		if e1 == nil && snp == nil {
 			c.Find("c02/verify.SNP/accept-no-snp", "verify.SNP accepted a golden without SEV-SNP data", op)
 		}
